@@ -95,9 +95,19 @@ def _stype(t) -> str:
     return f"uint{storage_bits(t)}_t"
 
 
+def service_of(t, tops):
+    """The ServiceType a request / response type belongs to (this PyDSDL has no parent_service attribute)."""
+    t = inner(t)
+    for x in tops or []:
+        if isinstance(x, pydsdl.ServiceType) and x.version == t.version and t.full_name.rsplit(".", 1)[0] == x.full_name:
+            return x
+    return None
+
+
 class CEmitter:
-    def __init__(self, ctypes: typing.List[pydsdl.CompositeType]):
+    def __init__(self, ctypes: typing.List[pydsdl.CompositeType], tops=None):
         self.ctypes = ctypes
+        self.tops = tops
         self.n = 0
 
     def tmp(self) -> str:
@@ -239,6 +249,17 @@ class CEmitter:
                 L.append(f'    printf(" has_fixed_port_id=%d", (int) {n}_HAS_FIXED_PORT_ID_);')
             if t.has_fixed_port_id and not t.has_parent_service:
                 L.append(f'    printf(" fixed_port_id=%llu", (unsigned long long) {n}_FIXED_PORT_ID_);')
+            svc = service_of(t, self.tops) if t.has_parent_service else None
+            if svc is not None:
+                # what the SERVICE exports (its request / response types have no port-ID of their own in the DSDL model)
+                sn = "_".join(svc.full_name.split(".")) + f"_{t.version.major}_{t.version.minor}"
+                L.append(f'    printf(" svc.has_fixed_port_id=%d svc.full_name_and_version=%s", (int) {sn}_HAS_FIXED_PORT_ID_, {sn}_FULL_NAME_AND_VERSION_);')
+                if svc.has_fixed_port_id:
+                    L.append(f'#ifdef {sn}_FIXED_PORT_ID_')
+                    L.append(f'    printf(" svc.fixed_port_id=%llu", (unsigned long long) {sn}_FIXED_PORT_ID_);')
+                    L.append('#else')
+                    L.append('    printf(" svc.fixed_port_id=none");')
+                    L.append('#endif')
             if isinstance(t, pydsdl.UnionType):
                 L.append(f'    printf(" union_option_count=%llu", (unsigned long long) {n}_UNION_OPTION_COUNT_);')
             for f in t.fields_except_padding:
